@@ -823,7 +823,12 @@ func (s *TxStore) Rollback(tx mwdb.DBTransaction, height uint64) error {
 							})
 					} else {
 						if curHeight > 0 && readAddressHeight(addrVal) == curHeight {
-							err = deleteRawAddressRecord(nsAddresses, addrKey)
+							if ps.IsStaking() {
+								err = deleteRawAddressRecord(nsAddresses, addrKey)
+							} else {
+								// an issued address stays listed: it is unused again
+								err = putRawAddressRecord(nsAddresses, addrKey, valueAddressRecord(addrRec))
+							}
 							if err != nil {
 								return err
 							}
@@ -1039,7 +1044,12 @@ func (s *TxStore) Rollback(tx mwdb.DBTransaction, height uint64) error {
 						})
 				} else {
 					if curHeight > 0 && readAddressHeight(addrVal) == curHeight {
-						err = deleteRawAddressRecord(nsAddresses, addrKey)
+						if ps.IsStaking() {
+							err = deleteRawAddressRecord(nsAddresses, addrKey)
+						} else {
+							// an issued address stays listed: it is unused again
+							err = putRawAddressRecord(nsAddresses, addrKey, valueAddressRecord(addrRec))
+						}
 						if err != nil {
 							return err
 						}
